@@ -231,6 +231,21 @@ func (x *tr) expr(e ast.Expr) string {
 		return x.errf("binary %s", v.Op)
 	case *ast.CallExpr:
 		return x.call(v)
+	case *ast.CompositeLit:
+		// `T{f: v, …}` with field names only: a structure instance (the type comes from the signature)
+		parts := make([]string, 0, len(v.Elts))
+		for _, el := range v.Elts {
+			kv, ok := el.(*ast.KeyValueExpr)
+			if !ok {
+				return x.errf("composite literal without field names: %s", x.src(v))
+			}
+			k, ok := kv.Key.(*ast.Ident)
+			if !ok {
+				return x.errf("composite literal key %s", x.src(kv.Key))
+			}
+			parts = append(parts, x.ident(k.Name)+" := "+x.expr(kv.Value))
+		}
+		return "{ " + strings.Join(parts, ", ") + " }"
 	case *ast.IndexExpr:
 		return "(GoLib.index " + x.expr(v.X) + " " + x.expr(v.Index) + ")"
 	case *ast.SliceExpr:
